@@ -70,7 +70,7 @@ func body() {
 	nAgeBig := envInt("C04_NAGEBIG", r.Pick(0, 4))
 	nConc := envInt("C04_NCONC", r.Pick(40, 640))
 	nConcProc := envInt("C04_NCONCPROC", r.Pick(12, 200))
-	nCrash := envInt("C04_NCRASH", r.Pick(32, 400))
+	nCrash := envInt("C04_NCRASH", r.Pick(32, 300))
 	nCrashConc := envInt("C04_NCRASHCONC", r.Pick(8, 120))
 	nSvc := envInt("C04_NSVC", r.Pick(3, 16))
 
